@@ -2067,6 +2067,14 @@ static int64_t eval3(Node *node, char ***label) {
     if (node->ty->kind != TY_ARRAY)
       error_tok(node->tok, "invalid initializer");
     return eval_rval(node->lhs, label) + node->member->offset;
+  case ND_DEREF:
+    // An element of an array of arrays (`a[1]` in `&a[1][0]`) is
+    // itself an array and decays to its address.
+    if (!label)
+      error_tok(node->tok, "not a compile-time constant");
+    if (node->ty->kind != TY_ARRAY)
+      error_tok(node->tok, "invalid initializer");
+    return eval_rval(node, label);
   case ND_VAR:
     if (!label)
       error_tok(node->tok, "not a compile-time constant");
